@@ -564,6 +564,56 @@ def t_kernels():
     return out
 
 
+def t_interp():
+    """interpolate_coord_robust_vector: guards, initial bracket, loop condition, midpoint, branch"""
+    fn = find_def('utilities/interpolate.py', 'interpolate_coord_robust_vector')
+    src = ast.unparse(fn)
+    for needed in ('n = len(x)', 'for iq in range(nq)', 'xqi[iq] = ilow', 'xqpi[iq] = (x[ilow + 1] - xq[iq]) / (x[ilow + 1] - x[ilow])', 'return (xqi, xqpi)'):
+        if needed not in src:
+            raise Unsupported('robust vector context: ' + needed)
+    loop = [n for n in fn.body if isinstance(n, ast.For)][0]
+    ladder = [n for n in loop.body if isinstance(n, ast.If)]
+    if len(ladder) != 1:
+        raise Unsupported('robust ladder')
+    lad = ladder[0]
+
+    def arrs(e):
+        u = ast.unparse(e)
+        table = {'xq[iq]': 'q', 'x[0]': 'x0', 'x[-2]': 'xn2', 'x[imid]': 'xmid'}
+        if u in table:
+            return table[u]
+        raise Unsupported('array reference ' + u)
+    env = {'__arrays__': arrs}
+    g1 = bexpr(lad.test, env)
+    if len(lad.body) != 1 or ast.unparse(lad.body[0].targets[0]) != 'ilow':
+        raise Unsupported('low branch')
+    low_val = expr(lad.body[0].value, env)
+    el = lad.orelse[0]
+    if not isinstance(el, ast.If):
+        raise Unsupported('high branch')
+    g2 = bexpr(el.test, env)
+    high_val = expr(el.body[0].value, env)
+    body = [b for b in el.orelse if not (isinstance(b, ast.Expr))]
+    inits = {ast.unparse(b.targets[0]): expr(b.value, env) for b in body if isinstance(b, ast.Assign)}
+    wl = [b for b in body if isinstance(b, ast.While)]
+    if len(wl) != 1 or set(inits) != {'ihigh', 'ilow'}:
+        raise Unsupported('search loop')
+    cond = bexpr(wl[0].test, env)
+    wb = wl[0].body
+    if len(wb) != 2 or ast.unparse(wb[0].targets[0]) != 'imid' or not isinstance(wb[1], ast.If):
+        raise Unsupported('search body')
+    mid = expr(wb[0].value, env)
+    br = bexpr(wb[1].test, env)
+    if ast.unparse(wb[1].body[0]) != 'ilow = imid' or ast.unparse(wb[1].orelse[0]) != 'ihigh = imid':
+        raise Unsupported('search update')
+    out = f"Definition rb_low_guard (q x0 : Z) : bool := {g1}.\nDefinition rb_low_value (n : Z) : Z := {low_val}.\n"
+    out += f"Definition rb_high_guard (q xn2 : Z) : bool := {g2}.\nDefinition rb_high_value (n : Z) : Z := {high_val}.\n"
+    out += f"Definition rb_init_low (n : Z) : Z := {inits['ilow']}.\nDefinition rb_init_high (n : Z) : Z := {inits['ihigh']}.\n"
+    out += f"Definition rb_continue (ilow ihigh : Z) : bool := {cond}.\nDefinition rb_mid (ilow ihigh : Z) : Z := {mid}.\n"
+    out += f"Definition rb_go_right (q xmid : Z) : bool := {br}.\n"
+    return out
+
+
 TARGETS = {
     'MultiplyBasis': t_multiply_basis,
     'ComputeL': t_compute_l,
@@ -571,6 +621,7 @@ TARGETS = {
     'Estimation': t_estimation,
     'Containers': t_containers,
     'Kernels': t_kernels,
+    'Interp': t_interp,
 }
 
 
